@@ -51,7 +51,16 @@ func genOp(t *rapid.T) Op {
 }
 
 func genPlan(t *rapid.T) Plan {
-	return Plan{Ops: rapid.SliceOfN(rapid.Custom(genOp), 1, 60).Draw(t, "ops")}
+	p := Plan{Ops: rapid.SliceOfN(rapid.Custom(genOp), 1, 60).Draw(t, "ops")}
+	if rapid.IntRange(0, 19).Draw(t, "bulk") == 0 { // hundreds of insertions over the life of one list
+		at := rapid.IntRange(0, len(p.Ops)).Draw(t, "bulkat")
+		p.Ops = append(p.Ops[:at], append([]Op{{Op: "Bulk", A: rapid.IntRange(260, 900).Draw(t, "bulkn")}}, p.Ops[at:]...)...)
+	}
+	for k := rapid.IntRange(0, 2).Draw(t, "relocs"); k > 0; k-- { // the list value is moved to another address
+		at := rapid.IntRange(0, len(p.Ops)).Draw(t, "relocat")
+		p.Ops = append(p.Ops[:at], append([]Op{{Op: "Relocate"}}, p.Ops[at:]...)...)
+	}
+	return p
 }
 
 type handle struct {
@@ -199,13 +208,13 @@ func checkRemoved(removed []handle, model []handle, what string) error {
 
 func runPlan(p Plan) (vk.Outcome, error) {
 	var out vk.Outcome
-	var l xlist.List[int]
+	l := new(xlist.List[int]) // (behind a pointer so that the list VALUE can be moved elsewhere: op Relocate)
 	var model []handle
 	var removedHandles, clearedHandles []handle
 	next := 0
 	removed, cleared, nontrivial := false, false, false
 	newVal := func() int { next++; return next }
-	if err := check(&l, model, "zero value"); err != nil {
+	if err := check(l, model, "zero value"); err != nil {
 		return out, err
 	}
 	for i, o := range p.Ops {
@@ -276,7 +285,7 @@ func runPlan(p Plan) (vk.Outcome, error) {
 				if h.n.Prev() != nil || h.n.Next() != nil {
 					return out, vk.Violf("removed-neighbour", "%s: removed node still has a neighbour", what)
 				}
-				if err := check(&l, model, what); err != nil {
+				if err := check(l, model, what); err != nil {
 					return out, err
 				}
 				removed = true
@@ -332,6 +341,49 @@ func runPlan(p Plan) (vk.Outcome, error) {
 					model = move(model, m, n)
 				}
 			}
+		case "Relocate":
+			// The list is a plain value (its zero value is ready to use, nothing says it must not be moved): it is
+			// copied to a new address and the old location is wiped. Handles obtained before keep working.
+			nl := new(xlist.List[int])
+			*nl = *l
+			*l = xlist.List[int]{}
+			l = nl
+			out.Label("relocated")
+		case "Bulk":
+			// hundreds of insertions at both ends, then all but a few removed again (from the middle outwards)
+			for j := 0; j < o.A; j++ {
+				v := newVal()
+				var nd *xlist.Node[int]
+				if j%5 == 4 {
+					nd = l.PushFront(v)
+					model = append([]handle{{nd, v}}, model...)
+				} else {
+					nd = l.PushBack(v)
+					model = append(model, handle{nd, v})
+				}
+				if nd == nil || nd.Value != v {
+					return out, vk.Violf("insert-value", "%s: insertion %d of the bulk returned a node with Value %v", what, j, nd)
+				}
+				if j%97 == 0 {
+					if err := check(l, model, what); err != nil {
+						return out, err
+					}
+					if err := checkRemoved(removedHandles, model, what); err != nil {
+						return out, err
+					}
+				}
+			}
+			if err := check(l, model, what); err != nil {
+				return out, err
+			}
+			for len(model) > 5+o.A%7 {
+				m := len(model) / 2
+				h := model[m]
+				l.Remove(h.n)
+				model = append(model[:m:m], model[m+1:]...)
+				removedHandles = append(removedHandles, h)
+			}
+			out.Label("bulk>256")
 		case "Clear":
 			l.Clear()
 			// the handles of the cleared nodes stay with the caller: their Value is never touched
@@ -343,7 +395,7 @@ func runPlan(p Plan) (vk.Outcome, error) {
 		if cleared && len(model) > 0 {
 			out.Label("regrown-after-clear")
 		}
-		if err := check(&l, model, what); err != nil {
+		if err := check(l, model, what); err != nil {
 			return out, err
 		}
 		if err := checkRemoved(removedHandles, model, what); err != nil {
